@@ -3,6 +3,7 @@ CONSTANTS Agents = {"a1","a2"}
  NSteps = 1
  AllowCrash = TRUE
  FixStatus = TRUE
+ BindFailUnlinks = FALSE
  ExclusiveBind = TRUE
 INVARIANTS C16_NoOverlap C16_RefusedRecordsNothing
 CHECK_DEADLOCK FALSE
